@@ -69,3 +69,87 @@ Theorem c09_crash_orig_partial :
     same_data d (replay (f_live fi) []) \/ same_data d (replay (f_live fi ++ f_pend fi) []).
 Proof. exact crash_orig_partial. Qed.
 Print Assumptions c09_crash_orig_partial.
+
+(* For ALL schedules (RENAME included): the snapshot records are SET records in strictly increasing
+   (key, id) order — rec_lt is the lexicographic order, rec_sorted = all SET + StronglySorted rec_lt —
+   hence no object is written twice and no batch repeats an earlier one. *)
+Theorem c09_batches_never_repeat :
+  forall mk mi s0 sched, wf s0 ->
+    let r := run_sched mk mi sched (run_init s0) in rec_sorted (sh_out (r_sh r)).
+Proof. exact batches_never_repeat. Qed.
+Print Assumptions c09_batches_never_repeat.
+
+(* Quiescent: the snapshot holds exactly the objects of the dataset, each once, in order. *)
+Theorem c09_batches_cover :
+  forall mk mi s n, wf s ->
+    let r := run_sched mk mi (repeat Step n) (run_init s) in
+    sh_done (r_sh r) = true ->
+    (forall k i v, In (CSet k i v) (sh_out (r_sh r)) <-> lookup k i s = Some v) /\
+    rec_sorted (sh_out (r_sh r)).
+Proof. exact batches_cover. Qed.
+Print Assumptions c09_batches_cover.
+
+(* Quiescent, stronger form: the snapshot IS the flattened dataset (one SET per object, in
+   iteration order). *)
+Theorem c09_quiescent_snapshot :
+  forall mk mi s n, wf s ->
+    let r := run_sched mk mi (repeat Step n) (run_init s) in
+    sh_done (r_sh r) = true -> sh_out (r_sh r) = map rec_of (flatten s).
+Proof. exact quiescent_snapshot. Qed.
+Print Assumptions c09_quiescent_snapshot.
+
+(* The quiescent rewrite terminates (batch sizes at least 1). *)
+Theorem c09_quiescent_terminates :
+  forall mk mi s, (1 <= mk)%nat -> (1 <= mi)%nat -> wf s ->
+    exists n, sh_done (r_sh (run_sched mk mi (repeat Step n) (run_init s))) = true.
+Proof. exact quiescent_terminates. Qed.
+Print Assumptions c09_quiescent_terminates.
+
+(* ---------------------------------------------------------------- non-vacuity *)
+
+(* ten collections, one with 40 objects (more than maxids = 32, and more keys than maxkeys = 8):
+   the rewrite is over after 13 sections and wrote one record per object, in dataset order *)
+Example c09_ex_quiescent :
+  wfb ex_data = true /\ length ex_data = 10%nat /\ length (flatten ex_data) = 58%nat /\
+  (maxkeys, maxids) = (8%nat, 32%nat) /\
+  let r := run_sched maxkeys maxids (repeat Step 40) (run_init ex_data) in
+  sh_done (r_sh r) = true /\
+  sh_done (r_sh (run_sched maxkeys maxids (repeat Step 12) (run_init ex_data))) = false /\
+  length (sh_out (r_sh r)) = length (flatten ex_data) /\
+  sh_out (r_sh r) = map rec_of (flatten ex_data) /\
+  replay (newfile r) [] = ex_data.
+Proof. vm_compute. repeat split; reflexivity. Qed.
+
+(* writers (no RENAME) between the sections: the hypotheses of c09_concurrent_partial hold, the
+   shrinklog is not empty, the live dataset differs from the initial one, and (as the theorem says)
+   the new file replays to it *)
+Example c09_ex_concurrent :
+  wfb ex_data = true /\ no_rename ex_sched = true /\
+  let r := run_sched maxkeys maxids ex_sched (run_init ex_data) in
+  sh_done (r_sh r) = true /\ length (r_log r) = 9%nat /\
+  lookup [97] [48; 55] (r_live r) = Some [121] /\ lookup [97] [48; 55] ex_data = None /\
+  lookup [100] [48; 53] (r_live r) = None /\ lookup [100] [48; 53] ex_data = Some [120] /\
+  replay (newfile r) [] = r_live r.
+Proof. vm_compute. repeat split; reflexivity. Qed.
+
+Example c09_ex_concurrent_flushdb :
+  no_rename ex_sched_flush = true /\
+  let r := run_sched maxkeys maxids ex_sched_flush (run_init ex_data) in
+  sh_done (r_sh r) = true /\ length (r_log r) = 4%nat /\ sh_out (r_sh r) <> [] /\
+  length (flatten (r_live r)) = 2%nat /\
+  replay (newfile r) [] = r_live r.
+Proof. vm_compute. repeat split; try reflexivity. discriminate. Qed.
+
+(* the hypothesis of the crash theorems, with a live file that is not its own snapshot and an
+   unflushed command: the two allowed outcomes are different datasets *)
+Example c09_ex_crash_hyp :
+  same_data (replay (f_snap ex_final ++ f_slog ex_final) []) (replay (f_live ex_final ++ f_pend ex_final) []) /\
+  f_snap ex_final <> f_live ex_final /\
+  lookup [98] [48; 49] (replay (f_live ex_final) []) = None /\
+  lookup [98] [48; 49] (replay (f_live ex_final ++ f_pend ex_final) []) = Some [122] /\
+  recover_dir (crash_at ex_final CP_after_rename_bak) = replay (f_live ex_final ++ f_pend ex_final) [] /\
+  recover_dir_orig (crash_at ex_final CP_after_rename_bak) = [].
+Proof.
+  split; [intros k i; vm_compute; reflexivity|].
+  split; [discriminate|]. vm_compute. repeat split; reflexivity.
+Qed.
